@@ -20,7 +20,7 @@ from ..session import Session, cfg_name, default_config, norm_points
 
 REPLAY_BY_RERUN = True  # workloads are deterministic in (tier, seed, shard): replay re-runs the shard
 SHARDS = {"quick": 8, "thorough": 16}
-TIMEOUT = {"quick": 900, "thorough": 3600}
+TIMEOUT = {"quick": 1800, "thorough": 7200}
 N_HIST = {"quick": 8, "thorough": 150}
 N_KILL = {"quick": 2, "thorough": 12}  # traced (history, op) pairs per shard
 
